@@ -78,8 +78,12 @@ def check_scn(scn):
                     return {"step": j, "clause": "volume-conserved", "observed": tv, "expected": sv}
         return None
 
+    from ..impl import Diverged, guarded
+
     try:
-        return run_scn(scn, on_step)
+        return guarded(lambda: run_scn(scn, on_step), seconds=10.0)
+    except Diverged:
+        return {"clause": "does-not-terminate", "observed": "still running after 10 s", "expected": "the manager's tasks terminate"}
     except Exception as e:  # the property says well-formed input never raises here
         return {"clause": "raised", "observed": repr(e), "expected": "no exception"}
 
